@@ -173,7 +173,7 @@ def zero_filled_names(F, S):
     for nd in ca.nodes:
         if nd["k"] == "DeclStmt":
             for d in nd.get("decls", []):
-                if d.get("n") == "indexEntries" and "init" in d:
+                if (d.get("rec") or "").startswith("std::vector<OP2Utility::Archive::ClmFile::IndexEntry") and "init" in d:
                     ini = ca.n(ca.strip(d["init"], casts=False))
                     t = ca.term(d["init"])
                     ok_decl = t[0] == "ctor" and len(t[2]) >= 1 and t[2][0][0] == "size" and not ini.get("list_init")
